@@ -63,8 +63,8 @@ THEOREMS = [
 ]
 RULE = (
     "case = (history of <=8 (quick) / <=14 (thorough) operations, probe): operations are `new executor` of any of the 3 "
-    "backends, `add_extended_md`, `translate` of a catalogue query (29 queries over the 3 backends: scalar/sequence/tuple "
-    "results, default-typed methods, own collections, C++ functions, DeltaR, enums, and queries that use a collection / "
+    "backends, `add_extended_md`, `translate` of a catalogue query (33 queries over the 3 backends: scalar/sequence/tuple "
+    "results, default-typed methods, own collections, C++ functions, DeltaR, enums, rows whose column names differ only by trailing digits, and queries that use a collection / "
     "function only an EARLIER query declared) with 0-4 metadata dictionaries drawn from all "
     "kinds (method types incl. collection types, enums, inject_code, job scripts, C++ functions, collections of the right "
     "and the wrong backend, RE-declarations of built-in names (Jets, Muons, DeltaR), job-script blocks with the "
@@ -125,6 +125,10 @@ CATALOG: Dict[str, Dict[str, Any]] = {
     "atlas.custom_muon_track": {"b": "atlas", "q": "Select(SelectMany(DS, lambda e: e.RecoMuons('mu')), lambda m: m.globalTrack().pt())", "keys": [["reco::Muon", "globalTrack"], ["reco::Track", "pt"], ["double", "pt"]], "needs": [MD_RECOMU_ATLAS], "end": "write"},
     "atlas.myf": {"b": "atlas", "q": f"Select({ATLAS_JETS}, lambda j: MyF(j.pt()))", "keys": [["xAOD::Jet", "pt"]], "needs": [MD_MYF]},
     "atlas.jet_vals": {"b": "atlas", "q": f"Select({ATLAS_JETS}, lambda j: j.vals())", "keys": [["xAOD::Jet", "vals"]], "needs": [MD_VALS]},
+    # two columns whose names differ by trailing digits: the members `_jetN` / `_jet2M` must keep the order of the columns
+    # whatever the counter values N, M are (never an exact collision: the two names are drawn 1-2 indices apart)
+    "atlas.cols_jet_jet2": {"b": "atlas", "q": "Select(DS, lambda e: {'jet': e.Jets('J').Select(lambda j: j.pt()), 'jet2': e.Jets('J').Count()})", "keys": [["xAOD::Jet", "pt"]]},
+    "atlas.cols_x1_x": {"b": "atlas", "q": "Select(DS, lambda e: {'x1': e.Jets('J').Count(), 'x': e.Jets('J').Select(lambda j: j.eta()), 'x12': e.Jets('J').Select(lambda j: j.pt())})", "keys": [["xAOD::Jet", "eta"], ["xAOD::Jet", "pt"]]},
     "atlas.deltar": {"b": "atlas", "q": f"Select({ATLAS_JETS}, lambda j: DeltaR(j.eta(), j.phi(), 0.0, 0.0))", "keys": [["xAOD::Jet", "eta"], ["xAOD::Jet", "phi"]]},
     # no metadata: the names were declared, if at all, by an earlier query — must be refused as in a fresh process
     "atlas.myjets_undeclared": {"b": "atlas", "q": "Select(SelectMany(DS, lambda e: e.MyJets('undeclared')), lambda j: j.pt())", "keys": [["my::Jet", "pt"]], "end": "write", "history": False},
@@ -136,11 +140,13 @@ CATALOG: Dict[str, Dict[str, Any]] = {
     "cms_aod.muons_pt": {"b": "cms_aod", "q": "Select(SelectMany(DS, lambda e: e.Muons('muons')), lambda m: m.pt())", "keys": [["reco::Muon", "pt"]]},
     "cms_aod.muon_track": {"b": "cms_aod", "q": "Select(SelectMany(DS, lambda e: e.Muons('muons')), lambda m: m.globalTrack().pt())", "keys": [["reco::Muon", "globalTrack"], ["reco::Track", "pt"]]},
     "cms_aod.mymu_pt": {"b": "cms_aod", "q": "Select(SelectMany(DS, lambda e: e.MyMu('mm')), lambda m: m.pt())", "keys": [["my::Mu", "pt"]], "needs": [MD_MYMU_AOD]},
+    "cms_aod.cols_mu_mu2": {"b": "cms_aod", "q": "Select(DS, lambda e: {'mu': e.Muons('muons').Select(lambda m: m.pt()), 'mu2': e.Muons('muons').Count()})", "keys": [["reco::Muon", "pt"]]},
     "cms_aod.deltar": {"b": "cms_aod", "q": "Select(SelectMany(DS, lambda e: e.Muons('muons')), lambda m: DeltaR(m.eta(), m.phi(), 0.0, 0.0))", "keys": [["reco::Muon", "eta"], ["reco::Muon", "phi"]]},
     "cms_aod.mymu_undeclared": {"b": "cms_aod", "q": "Select(SelectMany(DS, lambda e: e.MyMu('undeclared')), lambda m: m.pt())", "keys": [["my::Mu", "pt"]], "end": "write", "history": False},
     "cms_aod.bad_write": {"b": "cms_aod", "q": "Select(DS, lambda e: e.Muons('muons'))", "keys": [], "end": "write"},
     "cms_miniaod.muons_pt": {"b": "cms_miniaod", "q": "Select(SelectMany(DS, lambda e: e.Muons('slimmedMuons')), lambda m: m.pt())", "keys": [["pat::Muon", "pt"]]},
     "cms_miniaod.muon_track": {"b": "cms_miniaod", "q": "Select(SelectMany(DS, lambda e: e.Muons('slimmedMuons')), lambda m: m.globalTrack().pt())", "keys": [["pat::Muon", "globalTrack"], ["reco::TrackRef", "pt"]]},
+    "cms_miniaod.cols_mu_mu2": {"b": "cms_miniaod", "q": "Select(DS, lambda e: {'mu2': e.Muons('slimmedMuons').Count(), 'mu': e.Muons('slimmedMuons').Select(lambda m: m.pt())})", "keys": [["pat::Muon", "pt"]]},
     "cms_miniaod.mymu_undeclared": {"b": "cms_miniaod", "q": "Select(SelectMany(DS, lambda e: e.MyMu('undeclared_too')), lambda m: m.pt())", "keys": [["my::Mu", "pt"]], "end": "write", "history": False},
     "cms_miniaod.bad_write": {"b": "cms_miniaod", "q": "Select(DS, lambda e: e.Muons('slimmedMuons'))", "keys": [], "end": "write"},
 }
